@@ -5,7 +5,7 @@ import collections, json, os, re
 from . import common as C
 
 FAMILIES = {"C14": ["hub", "errors"], "C01": ["conc", "closures"], "C02": ["nest", "closures"], "C09": ["values"], "C10": ["errors"], "C11": ["closures"],
-            "C13": ["hub", "relay"], "C17": ["wire"]}
+            "C13": ["hub", "relay", "nestedlink"], "C17": ["wire"]}
 
 
 def expected_iter(n, fail_at):
@@ -333,7 +333,7 @@ def mon_c17(rec):
         out.append(n)
     if rec["family"] == "foreign":
         want = {901: ("c1", 5, ""), 902: ("c2", "hi", ""), 903: ("c3", None, ""), 904: ("c4", None, "nope"), 905: ("c5", 2905, ""),
-                906: ("c6", 3, ""), 907: ("c7", 0, ""), 908: ("c8", "", ""), 911: ("s1", 6, ""), 912: ("s2", "x", ""), 913: ("s3", None, ""),
+                906: ("c6", 3, ""), 907: ("c7", 0, ""), 908: ("c8", "", ""), 909: ("c9", None, ""), 910: ("c10", "hello x", ""), 911: ("s1", 6, ""), 912: ("s2", "x", ""), 913: ("s3", None, ""),
                 915: ("s5", 7, ""), 917: ("s7", 0, "")}
         for c in rec["foreign"] or []:
             if c.get("extra") == "none-expected":
@@ -383,7 +383,7 @@ def mon_c17(rec):
     for d in reqs.values():
         byfn[d["function"]].append(d)
     arity = {"Delayed": 2, "Zero": 0, "EchoInt": 2, "Fail": 2, "FailVal": 3, "Multi": 8, "Iter": 3, "Sub.Deep.Ping": 1, "EchoPtr": 2, "CallClosure": 2,
-             "EchoStr": 2, "EchoStruct": 2}
+             "EchoStr": 2, "EchoStruct": 2, "Call0": 2, "Notify0": 1}
     for fn, ds in byfn.items():
         if fn not in arity:
             out.append("request names function %r which no call used" % fn)
@@ -391,6 +391,9 @@ def mon_c17(rec):
         for d in ds:
             if isinstance(d["args"], list) and len(d["args"]) != arity[fn]:
                 out.append("request for %s carries %d arguments, expected %d (one per non-context argument)" % (fn, len(d["args"]), arity[fn]))
+    for d in byfn.get("CallClosure", []):
+        if isinstance(d["args"], list) and len(d["args"]) == 2 and not isinstance(d["args"][1], list):
+            out.append("closure invocation request carries the closure's arguments as %r: one array element per argument - an empty array, never null, for a closure that takes only a context" % (d["args"][1],))
     for c in rec["calls"] or []:
         if c["m"] not in byfn:
             out.append("call of %s produced no request frame with that dotted name" % c["m"])
@@ -462,6 +465,30 @@ def mon_relay(rec):
     for e in rec.get("events") or []:
         if e["kind"] == "ret" and e["m"] == "Relay" and e.get("err") != "context canceled":
             out.append("the call relayed with the context of a request of the ended link returned (%s, %r), expected that context's error" % (e.get("data"), e.get("err")))
+    return out
+
+
+def mon_nestedlink(rec):
+    """family nestedlink (C14 / C13): a link whose context descends from a request context of another link"""
+    out = []
+    for n in rec.get("notes") or []:
+        out.append(n)
+    for c in rec["calls"] or []:
+        m = c["m"]
+        if m == "EnumeratedWhileBothLinksLive" and c["ret"] != "2":
+            out.append("two links are live (the second was opened with the context of a request of the first) but %s remote(s) are enumerated" % c["ret"])
+        elif m == "WhoAmIFirstLink" and (c["err"] != "" or c["ret"] != c.get("extra")):
+            out.append("a handler of the first link read identity %r from its context, the link is enumerated as %r (%s)" % (c["ret"], c.get("extra"), c["err"]))
+        elif m == "WhoAmISecondLink" and (c["err"] != "" or c["ret"] != c.get("extra") or c.get("extra") == ""):
+            out.append("a handler of the second link (opened with the context of a request of the first link) read identity %r from its context, but that link is enumerated as %r (%s)" % (c["ret"], c.get("extra"), c["err"]))
+        elif m == "OpenLink" and c["err"] != "":
+            out.append("the call that opened the second link failed: %s" % c["err"])
+    conn = [e["remote"] for e in rec.get("events") or [] if e["node"] == "H" and e["kind"] == "hook" and e["m"] == "connect"]
+    disc = [e["remote"] for e in rec.get("events") or [] if e["node"] == "H" and e["kind"] == "hook" and e["m"] == "disconnect"]
+    if len(conn) == 2 and conn[0] == conn[1]:
+        out.append("the second link was announced with the identifier %s that the first link is already using: every link gets a fresh identifier" % conn[0])
+    if sorted(conn) != sorted(disc):
+        out.append("connect notifications %s and disconnect notifications %s do not pair up" % (conn, disc))
     return out
 
 
@@ -600,7 +627,7 @@ def check(res, tier, seed):
                           dict(kind="sys", output=out[-3000:], last=recs[-1] if recs else None))
         mon = MONITORS[pid]
         for r in recs:
-            vs = (mon_c11 if (pid == "C01" and r["family"] == "closures") else mon_relay if r["family"] == "relay" else mon)(r)
+            vs = (mon_c11 if (pid == "C01" and r["family"] == "closures") else mon_relay if r["family"] == "relay" else mon_nestedlink if r["family"] == "nestedlink" else mon)(r)
             if vs:
                 hits += 1
                 res.violation("sys-monitor:" + re.sub(r"\d+", "N", vs[0])[:50], "implementation violates %s: %s" % (pid, vs[0]),
